@@ -17,7 +17,9 @@ BOUNDS = {"quick": "every final-release magic of CPython's registry (1.5-3.13) +
                    "all timestamp/size/hash values; flag words with only PEP 552's two defined bits (all 4) - other bits "
                    "are rejected by CPython and outside the statement",
           "thorough": "same + every magic load_module accepts"}
-OUTSIDE = ["interim magics xdis rejects by design; dropbox files", "flag words with undefined bits set (CPython raises ImportError)",
+OUTSIDE = ["interim magics xdis rejects by design; dropbox files",
+           "the 3.3 pre-alpha magics 3190 and 3200: CPython added the size field at 3210, the statement says 3.3 has it - "
+           "the format of these two is not determined by the statement (xdis: 3190 without, 3200 with size)", "flag words with undefined bits set (CPython raises ImportError)",
            "the host-magic fast path with symbolic payload (C marshal.loads): concrete payload there"]
 ASSUMPTIONS = ["CrossHair/z3 soundness; struct model for '<I', '<Q', '<Hcc'", "header format rule: PEP 552, importlib._bootstrap_external"]
 FUNCS = ["xdis.load.load_module_from_file_object", "xdis.load.is_pypy", "xdis.magics.magic2int", "xdis.magics.int2magic",
@@ -243,7 +245,7 @@ def generate(tier, seed):
         sys.stdout = sys.stderr = devnull
         try:
             for m in sorted(M.magicint2version):
-                if m in ms or m in (62135, 3393):
+                if m in ms or m in (62135, 3393, 3190, 3200):   # 3190/3200: see OUTSIDE
                     continue
                 try:
                     LD.load_module_from_file_object(io.BytesIO(M.int2magic(m) + b"\0" * 60), get_code=False)
